@@ -2,6 +2,7 @@ import CogentModel.Model.Aln
 import CogentModel.Proofs.AlnInv
 import CogentModel.Proofs.AlnRefine2
 import CogentModel.Proofs.AlnViewSim
+import CogentModel.Proofs.AlnTotal
 /-! # C03 — property theorems (alignment operations equal the operations on the gapped strings)
 
 `gapped r` is the string a row `Aligned(map, data)` displays; `rowOfString` is how `Alignment`
@@ -68,6 +69,17 @@ theorem slice_refines (r r' : Row) (h : RowWF r) (a b : Option Int) (hr : rowSli
 
 example : (rowSlice (rowOfString "-AC--G-".toList) (some 1) (some (-2))).toOption.map gapped
     = some (PySlice.slice "-AC--G-".toList (some 1) (some (-2)) 1) := by decide
+
+/-- **Row slicing is total in range**: on a well-formed row, `Aligned.__getitem__(slice)` returns a
+row (no ValueError / TypeError from the map constructor or the `seq_start > seq_end` branch) for
+all bounds that are `None` or `≥ -len`; with `slice_refines` this is total correctness. -/
+theorem slice_total (r : Row) (h : RowWF r) (a b : Option Int)
+    (ha : ∀ x, a = some x → -len r.map ≤ x) (hb : ∀ y, b = some y → -len r.map ≤ y) :
+    ∃ r', rowSlice r a b = .ok r' ∧ RowWF r' ∧ gapped r' = PySlice.slice (gapped r) a b 1 := by
+  obtain ⟨r', hr⟩ := rowSlice_total r h a b ha hb
+  exact ⟨r', hr, rowSlice_spec r r' h a b hr⟩
+
+example : ∃ r', rowSlice (rowOfString "A--CG".toList) (some (-5)) (some 40) = .ok r' := ⟨_, rfl⟩
 
 /-- Integer indexing of a row follows Python index semantics (negative indices, IndexError when out
 of range) and shows the character of that column. -/
